@@ -14,9 +14,9 @@ MANIFEST = {
  'design_ref': 'DESIGN.md §6 C11',
 }
 THEOREMS = ['C11.write_exact', 'C11.write_exact_drained', 'C11.queue_conserved', 'C11.eagain_tolerated',
-            'C11.drains', 'C11.read_chunk_independent', 'C11.read_is_function_of_stream',
-            'C11.never_crashes', 'C11.flushed_when_removed_partial', 'C11.zombie_short_write_loses_tail',
-            'C11.decode_utf8']
+            'C11.eagain_limit', 'C11.drains', 'C11.read_is_function_of_stream', 'C11.read_chunk_independent',
+            'C11.read_delivers_lines', 'C11.read_chunks_from_any_state', 'C11.framing_exact',
+            'C11.never_crashes', 'C11.flushed_when_removed_partial', 'C11.zombie_short_write_loses_tail']
 TRUSTED = ['Lean 4.33.0 kernel; axioms ⊆ {propext, Classical.choice, Quot.sound}',
            'harness/c11.py: FakeSocket (send accepts a scripted prefix / raises a scripted error; recv returns scripted chunks), StubIrc (FIFO + PING→PONG), generators, canonical state dump',
            'LimnoriaModel.C05.Model (IrcMsg parse/format) as tied to src/ircmsgs.py by check C05',
@@ -553,8 +553,8 @@ def run(ctx):
     build = leanbuild.ensure(PROPERTY, THEOREMS, thorough=ctx.thorough, extractors=[])
     rig = Rig()
     scale = 12 if ctx.thorough else 1
-    cases = explore(rig, 'c11', 1200 * scale, 1200 * scale, 700 * scale, exhaustive_bytes=60 * scale)
-    mc, mlines = micro_cases(rig, rng.make('c11-micro'), 3000 * scale)
+    cases = explore(rig, 'c11', 3500 * scale, 3500 * scale, 2500 * scale, exhaustive_bytes=150 * scale)
+    mc, mlines = micro_cases(rig, rng.make('c11-micro'), 9000 * scale)
     if build.driver_ok:
         fill_model(cases)
         for c, o in zip(mc, wire.run_driver(PROPERTY, mlines)):
